@@ -833,12 +833,15 @@ package storage
 //@ ghost var walWrites int
 //@ ghost var walSyncs int
 //@ ghost var wlen(k int) int
+// wbyte(k, j): the j-th byte of the k-th write call on the log file.
+//@ ghost var wbyte(k int, j int) int
 //@ iface (r readWriteSyncCloser) Write(p []byte) (int, error)
 //@   props C03
 //@   trusted
-//@   modifies walWrites, wlen(walWrites), storeState
+//@   modifies walWrites, wlen(walWrites), wbyte(walWrites), storeState
 //@   ensures walWrites == old(walWrites) + 1 && wlen(old(walWrites)) == len(p)
 //@   ensures forall k int :: k != old(walWrites) ==> wlen(k) == old(wlen(k))
+//@   ensures[content] forall j int :: 0 <= j && j < len(p) ==> wbyte(old(walWrites), j) == p[j]
 //@   ensures err == nil ==> result0 == len(p)
 //@ iface (r readWriteSyncCloser) Sync() error
 //@   props C03
@@ -846,15 +849,25 @@ package storage
 //@   modifies walSyncs, storeState
 //@   ensures walSyncs == old(walSyncs) + 1
 
+//@ spec func wle32(k int, p int) int { wbyte(k,p) + 256*wbyte(k,p+1) + 65536*wbyte(k,p+2) + 16777216*wbyte(k,p+3) }
+//@ spec func wle64(k int, p int) int { wle32(k,p) + 4294967296*wle32(k,p+4) }
+// written(e, n): write n is the 4-byte length of record e and write n+1 is its image.
+//@ spec pred recWritten(e *WALEntry, n int) { wle32(n, 0) == 25 + len(e.val) && wbyte(n+1, 0) == e.WALOp && wle64(n+1, 1) == e.LSN && wle64(n+1, 9) == e.pageID &&
+//@        wle32(n+1, 17) == e.cellID && wle32(n+1, 21) == len(e.val) && (forall j int :: 0 <= j && j < len(e.val) ==> wbyte(n+1, 25+j) == e.val[j]) }
+
 //@ func (w *wal) flush(batch WALBatch) error
 //@   props C02 C03
 //@   requires w.reader != nil && (forall i int :: 0 <= i && i < len(batch) ==> batch[i] != nil)
-//@   modifies storeState, walWrites, walSyncs, wlen
+//@   modifies storeState, walWrites, walSyncs, wlen, wbyte
 //@   ensures[all; C02 C03] result == nil ==> walWrites == old(walWrites) + 2*len(batch) && (w.forceSync ==> walSyncs == old(walSyncs) + len(batch))
 //@   ensures[framing; C03] result == nil ==> forall k int :: 0 <= k && k < len(batch) ==> wlen(old(walWrites) + 2*k) == 4
 //@   ensures[prefix; C03] walWrites <= old(walWrites) + 2*len(batch) && forall k int :: 0 <= k && old(walWrites) + 2*k < walWrites ==> wlen(old(walWrites) + 2*k) == 4
+//@   ensures[content; C03] result == nil && (forall i int :: 0 <= i && i < len(batch) ==> len(batch[i].val) <= 4294967270) ==>
+//@              forall k int :: 0 <= k && k < len(batch) ==> recWritten(batch[k], old(walWrites) + 2*k) && wlen(old(walWrites) + 2*k + 1) == 25 + len(batch[k].val)
 //@   loop 1 invariant len(tupleLenBuf) == 4 && fresh(tupleLenBuf) && walWrites == old(walWrites) + 2*(rangeindex+1) && (w.forceSync ==> walSyncs == old(walSyncs) + rangeindex + 1)
 //@   loop 1 invariant forall k int :: 0 <= k && k <= rangeindex ==> wlen(old(walWrites) + 2*k) == 4
+//@   loop 1 invariant[content; C03] (forall i int :: 0 <= i && i < len(batch) ==> len(batch[i].val) <= 4294967270) ==>
+//@              forall k int :: 0 <= k && k <= rangeindex ==> recWritten(batch[k], old(walWrites) + 2*k) && wlen(old(walWrites) + 2*k + 1) == 25 + len(batch[k].val)
 //@ func (rs *RelationService) FlushWALBatch(batch WALBatch) error
 //@   props C02 C03 C13
 //@   requires txn == 1 && rs.wal != nil && rs.wal.reader != nil && (forall i int :: 0 <= i && i < len(batch) ==> batch[i] != nil)
